@@ -48,15 +48,16 @@ func (c *hctx) Err() error {
 func (c *hctx) Value(any) any { return nil }
 
 // A hang (a goroutine that neither returns, nor is queued, nor is parked) can only happen on a broken semaphore.
-// The first one is given 3 s; later ones 100 ms; after 50 the remaining histories are answered `hang` unrun.
+// The first one is given 20 s (the machine may be heavily loaded); later ones 1 s; after 20 the remaining
+// histories of this process are answered `hang` unrun.
 var (
 	hangs       int
-	hangTimeout = 3 * time.Second
+	hangTimeout = 20 * time.Second
 )
 
 func noteHang() {
 	hangs++
-	hangTimeout = 100 * time.Millisecond
+	hangTimeout = time.Second
 }
 
 const (
@@ -353,7 +354,7 @@ func (h *hist) op(tok string) (string, bool) {
 }
 
 func runHistory(size0 int64, ops string) string {
-	if hangs >= 50 {
+	if hangs >= 20 {
 		return "hang"
 	}
 	h := &hist{sem: semaphore.NewWeighted(size0)}
